@@ -17,6 +17,8 @@ func main() {
 		(&c12{e: e, r: r}).run()
 	case "C13":
 		(&c13{e: e, r: r}).run()
+	case "C15":
+		(&c15{e: e, r: r}).run()
 	default:
 		fmt.Fprintln(os.Stderr, "router2: unknown property", e.Prop)
 		e.Finish()
